@@ -12,4 +12,5 @@ if __name__ == "__main__":
                 for i, pa in enumerate(ps):
                     print(" -- path", i, pa.exit, "ret=", sym.show(pa.ret) if pa.ret else None)
                     for e in pa.events:
+                        if e.kind == "bb": continue
                         print("     ", "  " * len(e.frame), repr(e))
